@@ -233,15 +233,25 @@ def run(ctx: Ctx, rs: RuleSet, tier: str):
              f'against the current signature) but the order is {order}',
              ctx.loc(ac, ac.node))
   # the loop applies every change of the current type to its parent
-  ok = False
-  for n in walk_function(ac.node):
-    if isinstance(n, ast.Call) and isinstance(
-        n.func, ast.Attribute) and n.func.attr == 'apply' and len(n.args) == 2:
-      recv = unparse(n.func.value)
-      a0 = unparse(roles.deref_deep(ac, n.args[0]))
-      a1 = unparse(roles.deref_deep(ac, n.args[1]))
-      ok = a1 == f'{recv}.target[-1]' and a0.endswith(
-          f'[{recv}.target[:-1]]')
+  applies = [n for n in walk_function(ac.node) if isinstance(
+      n, ast.Call) and isinstance(n.func, ast.Attribute) and
+             n.func.attr == 'apply' and len(n.args) == 2]
+  ok = bool(applies)
+  g_ac = ctx.cfg(ac)
+  for n in applies:
+    recv = unparse(n.func.value)
+    at = ctx.node_of(ac, n)
+
+    def val(e):
+      # the argument as defined where the call happens (a name may be bound
+      # once per written-out loop)
+      if isinstance(e, ast.Name) and at:
+        e = roles.value_at(g_ac, at[0], e)[0]
+      return unparse(roles.deref_deep(ac, e))
+
+    a0, a1 = val(n.args[0]), val(n.args[1])
+    ok = ok and a1 == f'{recv}.target[-1]' and a0.endswith(
+        f'[{recv}.target[:-1]]')
   rs.check(ok, 'ORD.application-order', f'{ac.qualname}:apply',
            'each change is applied to the value at target[:-1] with element '
            'target[-1]', ctx.loc(ac, ac.node))
